@@ -8,6 +8,7 @@
 //           | (flineqr|flinler|flinner) C,C,.. xI,xJ,.. K xB
 //           | (leq|lt|geq|gt|eq) <fv> <fv>
 //           | ilinle c,c,.. xI,xJ,.. k            (IntLinLe posted on float / mixed variables)
+//           | (add|sub) <fv> <fv> xS              (Propagators::add / sub: x + y == s, x - y == s)
 //   fv    ::= xN | f:<hex> | i:<int> | next(xN) | next(f:<hex>) | next(i:<int>)
 //   propf  -> `fail` | `ok (stalled|solved) <doms>`       (float domain printed `F min max step`)
 //   searchf-> `sols <tuple> <tuple> ...` (the first 40 solutions at most; float value = F<hex>) | `sols -`
@@ -22,8 +23,14 @@
 //           | props (flineq|flinle|flinne) C,.. xI,.. K           m.props.float_lin_*
 //           | props (leq|lt|geq|gt|eq) <fv> <fv>                  m.props.less_than_or_equals ...
 //           | conv (i2f|floor|ceil|round) xA xB                   m.int2float / float2int_*
+//           | arith (add|sub|mul|div) <opd> <opd>                 m.add / m.sub / m.mul / m.div ; the returned handle becomes
+//                                                                 the NEXT variable index (x<n>, n = number of variables so far)
+//           | arith abs <opd>                                     m.abs
+//           | arith (min|max|sum|fmin|fmax) xA,xB,..              m.min / m.max / m.sum / array_float_minimum / array_float_maximum
+//           | (elem|elemi|elemx) xIdx xA,xB,.. xRes               m.array_float_element / m.array_int_element / ModelExt::elem
+//   opd   ::= xN | f:<hex> | i:<int>                              (a constant operand is passed as Val::ValF / Val::ValI)
 //   cons  ::= (eq|ne|lt|le|gt|ge)(<expr>,<expr>)
-//   expr  ::= xN | <int> | f:<hex> | (add|sub|mul)(<expr>,<expr>)
+//   expr  ::= xN | <int> | f:<hex> | (add|sub|mul|div)(<expr>,<expr>)
 //   entry ::= solve | min xN | max xN
 //   lp = root LP step enabled, fp = optimisation fast path enabled (both OFF by default, hook H5)
 //   solvef -> `ok <v>,<v>,.. lp=<0|1>` | `err <ErrorName> lp=<0|1>`
@@ -117,6 +124,17 @@ impl<'a> K2 for PostCmp<'a> {
     }
 }
 
+struct PostArith<'a> { props: &'a mut Propagators, kind: &'a str, s: VarId }
+impl<'a> K2 for PostArith<'a> {
+    fn call<A: View, B: View>(self, a: A, b: B) {
+        match self.kind {
+            "add" => { self.props.add(a, b, self.s); }
+            "sub" => { self.props.sub(a, b, self.s); }
+            k => panic!("bad arithmetic kind {}", k),
+        }
+    }
+}
+
 /// post one props-level float propagator; false if the kind is not one of ours
 fn post_props(t: &[&str], vars: &[VarId], props: &mut Propagators) -> bool {
     match t[0] {
@@ -129,6 +147,10 @@ fn post_props(t: &[&str], vars: &[VarId], props: &mut Propagators) -> bool {
         "ilinle" => { props.int_lin_le(crate::parse_list(t[1]), var_list(t[2], vars), t[3].parse().unwrap()); }
         "leq" | "lt" | "geq" | "gt" | "eq" => {
             with2(parse_fv(t[1]), parse_fv(t[2]), vars, PostCmp { props, kind: t[0] });
+        }
+        "add" | "sub" => {
+            let s = vars[var_ix(t[3])];
+            with2(parse_fv(t[1]), parse_fv(t[2]), vars, PostArith { props, kind: t[0], s });
         }
         _ => return false,
     }
@@ -281,6 +303,38 @@ fn parse_cons(s: &str, vars: &[VarId]) -> Constraint {
     match h { "eq" => l.eq(r), "ne" => l.ne(r), "lt" => l.lt(r), "le" => l.le(r), "gt" => l.gt(r), "ge" => l.ge(r), _ => panic!("bad comparison {}", h) }
 }
 
+#[derive(Clone, Copy)]
+enum Opd { V(VarId), C(Val) }
+fn parse_opd(tok: &str, ids: &[VarId]) -> Opd {
+    if let Some(r) = tok.strip_prefix("f:") { Opd::C(Val::ValF(pf(r))) }
+    else if let Some(r) = tok.strip_prefix("i:") { Opd::C(Val::ValI(r.parse().expect("int"))) }
+    else { Opd::V(ids[var_ix(tok)]) }
+}
+fn arith_bin(m: &mut Model, op: &str, a: Opd, b: Opd) -> VarId {
+    fn go<A: View, B: View>(m: &mut Model, op: &str, a: A, b: B) -> VarId {
+        match op { "add" => m.add(a, b), "sub" => m.sub(a, b), "mul" => m.mul(a, b), "div" => m.div(a, b), k => panic!("bad arith op {}", k) }
+    }
+    match (a, b) {
+        (Opd::V(x), Opd::V(y)) => go(m, op, x, y),
+        (Opd::V(x), Opd::C(d)) => go(m, op, x, d),
+        (Opd::C(c), Opd::V(y)) => go(m, op, c, y),
+        (Opd::C(c), Opd::C(d)) => go(m, op, c, d),
+    }
+}
+/// `arith <op> ...`: post through the public arithmetic route and return the result handle
+fn post_arith(m: &mut Model, t: &[&str], ids: &[VarId]) -> VarId {
+    match t[1] {
+        "add" | "sub" | "mul" | "div" => arith_bin(m, t[1], parse_opd(t[2], ids), parse_opd(t[3], ids)),
+        "abs" => match parse_opd(t[2], ids) { Opd::V(x) => m.abs(x), Opd::C(c) => m.abs(c) },
+        "min" => m.min(&var_list(t[2], ids)).expect("min of an empty list"),
+        "max" => m.max(&var_list(t[2], ids)).expect("max of an empty list"),
+        "fmin" => m.array_float_minimum(&var_list(t[2], ids)).expect("min of an empty list"),
+        "fmax" => m.array_float_maximum(&var_list(t[2], ids)).expect("max of an empty list"),
+        "sum" => { let xs = var_list(t[2], ids); m.sum(&xs) }
+        k => panic!("bad arith kind {}", k),
+    }
+}
+
 struct MBuilt { m: Model, ids: Vec<VarId>, entry: Vec<String> }
 fn mbuild(line: &str) -> MBuilt {
     selen::verif_hooks::set_agenda_seed(None);
@@ -327,6 +381,11 @@ fn mbuild(line: &str) -> MBuilt {
             "conv" => {
                 let (a, b) = (ids[var_ix(t[2])], ids[var_ix(t[3])]);
                 match t[1] { "i2f" => m.int2float(a, b), "floor" => m.float2int_floor(a, b), "ceil" => m.float2int_ceil(a, b), "round" => m.float2int_round(a, b), _ => panic!("bad conv") }
+            }
+            "arith" => { let r = post_arith(&mut m, &t, &ids); ids.push(r); }
+            "elem" | "elemi" | "elemx" => {
+                let (ix, arr, res) = (ids[var_ix(t[1])], var_list(t[2], &ids), ids[var_ix(t[3])]);
+                match t[0] { "elem" => m.array_float_element(ix, &arr, res), "elemi" => m.array_int_element(ix, &arr, res), _ => { m.elem(&arr, ix, res); } }
             }
             "solve" | "min" | "max" => entry = t.iter().map(|s| s.to_string()).collect(),
             "lp" | "fp" | "to" => {}
